@@ -456,7 +456,17 @@ class _Simu(_IObserver, _params.Updatable, ABC):
         entry = self.__list_results[iter]
         if isinstance(entry, str):
             return self.__Restore_iter_from_local(self.__Read_iter_parts(entry))
-        return entry.copy()
+
+        # hand over copies of the arrays: what the caller does with them must not reach the
+        # stored iteration
+        def copy_values(value):
+            if isinstance(value, np.ndarray):
+                return value.copy()
+            elif isinstance(value, dict):
+                return {key: copy_values(val) for key, val in value.items()}
+            return value
+
+        return copy_values(entry)
 
     @abstractmethod
     def Set_Iter(self, iter: int = -1, resetAll=False) -> dict:
